@@ -13,6 +13,7 @@ package main
 // also evaluated directly on what the implementation did (search for a failing input).
 
 import (
+	"github.com/LindsayBradford/crem/internal/pkg/model/models/dumb"
 	"fmt"
 	"math"
 	mrand "math/rand"
@@ -546,6 +547,41 @@ func kirkCatchmentSequence(c *Ctx, r *Rng, steps int) {
 	protect(func() { k.explorer.TearDown() })
 }
 
+// kirkDumbSequence: the real explorer over crem's own DumbModel (Model.Type = "DumbModel" in a configuration): the model
+// picks the change (+-1 within its range), reports it, and must apply exactly that on acceptance.
+func kirkDumbSequence(c *Ctx, r *Rng, steps int) {
+	dir := []string{"min", "max"}[r.Intn(2)]
+	a := []float64{0.9, 0.99, 1}[r.Intn(3)]
+	var k *kirkRig
+	pan := protect(func() {
+		m := dumb.NewModel()
+		m.Initialise(model.AsIs)
+		var p2 string
+		k, p2 = newKirkRig(dir, 1, a, m, "ObjectiveValue")
+		if p2 != "" {
+			panic(p2)
+		}
+	})
+	if pan != "" || k == nil || k.explorer == nil {
+		c.Fail("no-panic", "kirk:panic", "DumbModel under the Kirkpatrick explorer: "+pan, nil)
+		return
+	}
+	k.approx = true
+	T := []float64{0.1, 1, 10, 1000}[r.Intn(4)]
+	k.explorer.Temperature = T
+	obj0 := k.objective()
+	c.Op(fmt.Sprintf("reset %s %s %s %s", dir, floatBits(T), floatBits(a), floatBits(obj0)), "ok")
+	c.Stat(fmt.Sprintf("dumb-model sequence dir=%s", dir))
+	for i := 0; i < steps; i++ {
+		if r.Chance(0.2) {
+			k.cool(c)
+			continue
+		}
+		k.try(c, 0, true, kirkDraw(r, math.Exp(-1/k.explorer.Temperature)), "dumb")
+	}
+	protect(func() { k.explorer.TearDown() })
+}
+
 // ---------------------------------------------------------------- replay
 
 func kirkReplay(c *Ctx, lines []string) {
@@ -630,5 +666,8 @@ func suiteKirk(c *Ctx) {
 	}
 	for s := 0; s < c.N(12, 60); s++ {
 		kirkCatchmentSequence(c, r, c.N(300, 600))
+	}
+	for s := 0; s < c.N(8, 40); s++ {
+		kirkDumbSequence(c, r, c.N(200, 600))
 	}
 }
